@@ -100,7 +100,7 @@ class C19(F.PropCheck):
         return pad, m + d + pad
 
     def gen_dev(self, rng, cid, tier):
-        kind = rng.choice(['shutter', 'shutter', 'relay', 'relay', 'silent', 'quiet-after-reg', 'autocal-stall', 'autocal-stall', 'cfg-button', 'action-trigger'])
+        kind = rng.choice(['shutter', 'shutter', 'relay', 'relay', 'silent', 'quiet-after-reg', 'autocal-stall', 'autocal-stall', 'cfg-button', 'action-trigger', 'server-chatty'])
         if rng.random() < 0.01: kind = 'rs-10min'
         if kind in self.SPECIAL: return self.SPECIAL[kind](self, rng, cid)
         tags = ['dev', 'dev:' + kind]
@@ -233,7 +233,7 @@ class C19(F.PropCheck):
         if mono:
             evs.append(('IN', [15, 1], b'')); t0 = t
             hold = rng.choice([3000000, 4900000, 5200000, 6000000]); marks += [t0 + 200000, t0 + 2500000, t0 + 4800000]
-            adv(hold); evs.append(('IN', [15, 0], b'')); adv(rng.choice([1000000, 3500000])); marks.append(t)
+            adv(hold); evs.append(('IN', [15, 0], b'')); marks.append(t0 + 5500000); adv(rng.choice([1000000, 3500000])); marks.append(t - 300000)
             evs.append(('IN', [15, 1], b'')); adv(200000); evs.append(('IN', [15, 0], b'')); adv(2000000)
         else:
             lvl = 0
@@ -268,7 +268,19 @@ class C19(F.PropCheck):
         adv(1500000)
         return self.finish(rng, cid, cfg, evs, marks, t, ['dev', 'dev:action-trigger'])
 
-    SPECIAL = {'autocal-stall': gen_autocal, 'rs-10min': gen_rs10min, 'cfg-button': gen_cfgbtn, 'action-trigger': gen_at}
+    def gen_chatty(self, rng, cid):
+        """the server talks every few seconds (unsolicited ping results: last_response stays fresh) while the device has nothing to
+        send: the keep-alive ping is then due through last_sent alone (t1 window of timer1_cb).  Sites: devconn data_write
+        last_sent stamp, timer1_cb t1."""
+        cfg = [1, 0, 0, 1, 0, 0, 0, 3000, 3000, 0, 0, 2000, 2000, 0, 0, 0]
+        evs = []; T = rng.choice([10, 10, 15]); t = self.preamble(evs, timeout=T); marks = []; rr = 2
+        for _ in range(rng.choice([8, 12, 16])):
+            dt = rng.choice([2000000, 3000000, 4000000]); evs.append(('ADV', [dt], b'')); t += dt
+            evs.append(('SRV', [50, rr], bytes(16))); rr += 1; marks.append(t + 500000)
+        evs.append(('ADV', [3000000], b'')); t += 3000000
+        return self.finish(rng, cid, cfg, evs, marks, t, ['dev', 'dev:server-chatty'])
+
+    SPECIAL = {'server-chatty': gen_chatty, 'autocal-stall': gen_autocal, 'rs-10min': gen_rs10min, 'cfg-button': gen_cfgbtn, 'action-trigger': gen_at}
 
     def gen_cases(self, rng, n, tier):
         cases = []
